@@ -83,6 +83,14 @@ def families(tier):
               dict(bus=b1, pat='C', name='hc', prog=[('pause',)]), dict(bus=b2, pat='G', name='hg', prog=[('pause',)])]
         out.append(dict(prop='C06', family='c06.mutex.parallel_siblings', id=f'c06/sib-twice-{b1}{b2}-o{"".join(o)}', cfg=cfg, params=dict(first_b='main', par_a=True, par_b=False),
                         scn=dict(buses={'A': dict(parallel=True), 'B': {}}, order=o, handlers=hs, main=[('disp', 'B', 'X', 'await'), ('disp', 'A', 'P', 'ff')], actors=[], forwards=[], settle=3.0)))
+    # processing of an event on a parallel_handlers bus is interrupted (the awaiting parent on serial A times out) while one of its handlers needs 0.3 s to clean up;
+    # a third bus has work queued: nothing may start on it before that clean-up is over
+    for o in (['A', 'B', 'C'], ['C', 'B', 'A']):
+        hs = [dict(bus='A', pat='P', name='hp', prog=[('disp', 'B', 'C', 'await'), ('pause',)]), dict(bus='B', pat='C', name='hc1', prog=[('pause',)]),
+              dict(bus='B', pat='C', name='hc2', prog=[('guarded_pause', 0.3)]), dict(bus='C', pat='X', name='hxC', prog=[('pause',)]), dict(bus='A', pat='X', name='hxA', prog=[('ret', 0)])]
+        out.append(dict(prop='C06', family='c06.mutex.parallel', id=f'c06/slow-cleanup-o{"".join(o)}', cfg=dict(cfg, window=1.2, max_targets=3), params=dict(first_b='main', par_a=False, par_b=True),
+                        scn=dict(buses={'A': {}, 'B': dict(parallel=True), 'C': {}}, order=o, handlers=hs,
+                                 main=[('disp', 'C', 'X0', 'await'), ('disp', 'A', 'P', 'ff', {'timeout': 0.5}), ('disp', 'C', 'X', 'ff'), ('disp', 'A', 'X2', 'ff')], actors=[], forwards=[], settle=3.0)))
     # a sibling gives up its await (caller-side wait_for) while it is still queued for its turn, then awaits another child
     for b1, b2, o in itertools.product('AB', 'AB', (['A', 'B'], ['B', 'A'])):
         hs = [dict(bus='A', pat='P', name='h1', prog=[('disp', b1, 'C', 'await'), ('pause',)]),
